@@ -61,6 +61,7 @@ type Prop struct {
 	// Validate runs the native validation test (translator, summaries, oracle
 	// restatements) and returns the number of vectors pushed through.
 	ValidateRun string // go test -run pattern in the overlay test file ("" = none)
+	ObserveHarness []string // harness functions run natively AND through the engine on concrete vectors; their observations must agree
 	TestFiles []string // extra _test overlay files under /verif/harness
 	Instrument []Instr // textual instrumentation of repo files, applied in the overlay (symbolic and native alike)
 	Bounds    []string
@@ -360,6 +361,7 @@ func runCheck(id, tier string) int {
 		}
 	}
 
+	obsOK, obsN, obsMsg := runObservations(sc, base, prog, p)
 	obligs := p.Obligs(tier)
 	if only := os.Getenv("VERIF_ONLY"); only != "" {
 		var sel []Oblig
@@ -554,6 +556,15 @@ func runCheck(id, tier string) int {
 			fmt.Printf("  validated %d vectors natively (summaries, oracle restatement, translator)\n", vr.n)
 		}
 	}
+	if len(p.ObserveHarness) > 0 {
+		if !obsOK {
+			fmt.Println("INCONCLUSIVE: translator validation failed:", obsMsg)
+			inconclusive = append(inconclusive, "translator validation: the engine and the native build disagree on concrete vectors: "+obsMsg)
+		} else {
+			fmt.Printf("  translator validated: %d observations on concrete vectors agree between the engine and the native build\n", obsN)
+			vr.n += obsN
+		}
+	}
 	inconclusive = dedup(inconclusive)
 	for _, inc := range inconclusive {
 		fmt.Println("INCONCLUSIVE:", inc)
@@ -656,6 +667,57 @@ func runOblig(base *sym.Engine, prog *sym.Program, p *Prop, o Oblig, worker int,
 	r.E = e
 	r.Wall = time.Since(t0)
 	return r
+}
+
+// runObservations pushes concrete vectors through the native build and
+// through the encoding and compares what both observe.
+func runObservations(sc *scratch, base *sym.Engine, prog *sym.Program, p *Prop) (bool, int, string) {
+	if len(p.ObserveHarness) == 0 {
+		return true, 0, ""
+	}
+	out, err := sc.goTest(p, "^TestVerifObserve$", []string{"VERIF_OBSERVE=" + strings.Join(p.ObserveHarness, ",")}, false, 10*time.Minute)
+	if err != nil {
+		return false, 0, "native observation run failed: " + tail(out, 15)
+	}
+	var native []string
+	for _, m := range regexp.MustCompile(`(?m)^VOBS (.*)$`).FindAllStringSubmatch(out, -1) {
+		native = append(native, m[1])
+	}
+	e, err := base.Fork(99, "z3", 10000)
+	if err != nil {
+		return false, 0, err.Error()
+	}
+	defer e.Close()
+	for _, h := range p.ObserveHarness {
+		fn := prog.Func(p.PkgPath, h)
+		if fn == nil {
+			return false, 0, "observation harness missing: " + h
+		}
+		var failure string
+		func() {
+			defer func() {
+				if x := recover(); x != nil {
+					failure = fmt.Sprint(x)
+				}
+			}()
+			e.Explore(fn, nil)
+		}()
+		if failure != "" {
+			return false, 0, "engine failure in " + h + ": " + failure
+		}
+		if len(e.Inconclusive) > 0 {
+			return false, 0, "engine could not run " + h + ": " + e.Inconclusive[0]
+		}
+	}
+	if len(native) != len(e.Observations) {
+		return false, 0, fmt.Sprintf("%d native observations, %d from the engine", len(native), len(e.Observations))
+	}
+	for i := range native {
+		if native[i] != e.Observations[i] {
+			return false, 0, fmt.Sprintf("observation %d: native %q, engine %q", i, native[i], e.Observations[i])
+		}
+	}
+	return true, len(native), ""
 }
 
 func runReplayCmd(path string) int {
